@@ -232,7 +232,7 @@ ANAMES = ['ignored-a', 'Pool-main', 'A', 'worker: job-1']
 _OPTP = {}
 
 
-def renames(ps, bn, an0, an1, b_leaks, a_known):
+def renames(ps, bn, an0, an1, b_leaks, a_known, adopt=False):
     """Several --ignore-new-thread patterns (each is a pattern of its own: inline flags and group numbers do not leak from
     one into another), and a thread that existed before the test and changes its name while the test runs: it is still
     a thread that existed before the test."""
@@ -242,13 +242,15 @@ def renames(ps, bn, an0, an1, b_leaks, a_known):
     del REPORTED[:]
     pats = pick(PATSETS, ps)
     bname, a0, a1 = pick(BNAMES, bn), pick(ANAMES, an0), pick(ANAMES, an1)
-    b_leaks, a_known = cb(b_leaks), cb(a_known)
+    b_leaks, a_known, adopt = cb(b_leaks), cb(a_known), cb(adopt)
     _start(1 << 40, 'Main', True)
     a = _start(1, a0, a_known)
     state = {}
 
     def t0():
         a['obj'].name = a1          # e.g. a pool worker naming itself after the job it picks up
+        if adopt:                   # a thread started through _thread becomes known to threading while it runs (it logs, or asks for current_thread())
+            a['known'] = True
         state['b'] = _start(2, bname, True)
         if not b_leaks:
             _kill(state['b'])
@@ -273,7 +275,7 @@ def renames(ps, bn, an0, an1, b_leaks, a_known):
         exp = []
         if b_leaks and not any(re.match(p_, bname) for p_ in pats):
             exp.append(('t0', [bname]))
-    LAST = ('renames', tuple(pats), bname, a0, a1, b_leaks, a_known, list(REPORTED))
+    LAST = ('renames', tuple(pats), bname, a0, a1, b_leaks, a_known, list(REPORTED), adopt)
     return REPORTED == exp
 
 
@@ -330,13 +332,13 @@ SPEC = {
                     'thorough': ['b_end == %d and id_b == %d and id_c == %d and a_end == %d' % (e, i, c, a) for e in range(4) for i in (1, 2) for c in range(1, i + 2) for a in range(3)]},
          'timeout': {'quick': 240, 'thorough': 800},
          'fidelity': [_v(), _v(a_end=1, id_c=1, c_known=True)]},
-        {'name': 'renames', 'fn': 'renames', 'params': [('ps', 'int'), ('bn', 'int'), ('an0', 'int'), ('an1', 'int'), ('b_leaks', 'bool'), ('a_known', 'bool')],
-         'call': 'ps, bn, an0, an1, b_leaks, a_known',
-         'bounds': {'quick': '0 <= ps < %d and 0 <= bn < %d and 0 <= an0 < %d and 0 <= an1 < %d' % (len(PATSETS), len(BNAMES), len(ANAMES), len(ANAMES)),
-                    'thorough': '0 <= ps < %d and 0 <= bn < %d and 0 <= an0 < %d and 0 <= an1 < %d' % (len(PATSETS), len(BNAMES), len(ANAMES), len(ANAMES))},
+        {'name': 'renames', 'fn': 'renames', 'params': [('ps', 'int'), ('bn', 'int'), ('an0', 'int'), ('an1', 'int'), ('b_leaks', 'bool'), ('a_known', 'bool'), ('adopt', 'bool')],
+         'call': 'ps, bn, an0, an1, b_leaks, a_known, adopt',
+         'bounds': {'quick': '(not adopt or (not a_known and ps == 0 and bn <= 1)) and 0 <= ps < %d and 0 <= bn < %d and 0 <= an0 < %d and 0 <= an1 < %d' % (len(PATSETS), len(BNAMES), len(ANAMES), len(ANAMES)),
+                    'thorough': '(not adopt or not a_known) and 0 <= ps < %d and 0 <= bn < %d and 0 <= an0 < %d and 0 <= an1 < %d' % (len(PATSETS), len(BNAMES), len(ANAMES), len(ANAMES))},
          'slices': {'quick': ['ps == %d' % i for i in range(len(PATSETS))], 'thorough': ['ps == %d and an0 == %d' % (i, j) for i in range(len(PATSETS)) for j in range(len(ANAMES))]},
          'reach': 'renames_reach', 'reach_bounds': {'quick': 'ps == 0 and bn == 0 and an0 == 0 and an1 == 3', 'thorough': 'ps == 0 and bn == 0 and an0 == 0 and an1 == 3'},
          'timeout': {'quick': 240, 'thorough': 800},
-         'fidelity': [dict(ps=1, bn=1, an0=1, an1=3, b_leaks=True, a_known=True), dict(ps=2, bn=3, an0=2, an1=2, b_leaks=True, a_known=False), dict(ps=0, bn=4, an0=0, an1=3, b_leaks=False, a_known=True)]},
+         'fidelity': [dict(ps=1, bn=1, an0=1, an1=3, b_leaks=True, a_known=True, adopt=False), dict(ps=2, bn=3, an0=2, an1=2, b_leaks=True, a_known=False, adopt=False), dict(ps=0, bn=4, an0=0, an1=3, b_leaks=False, a_known=True, adopt=False), dict(ps=0, bn=0, an0=2, an1=2, b_leaks=True, a_known=False, adopt=True)]},
     ],
 }
